@@ -65,10 +65,12 @@ NeverRecursive(r, o) == /\ r.marker \in {"1", "2"} => o.sidecars = 0
                         /\ o.nested = 0
 (* "with mode off nothing is launched and nothing is written" *)
 OffIsInert(r, o) == r.mode = "off" => o.launched = 0 /\ o.wrote = {}
-(* the token is handed out at most once per 24 h: with a fresh token        *)
-(* present (somebody acquired it within the last 24 h) nobody acquires it;  *)
-(* nobody acquires it without asking for upload                              *)
-TokenOncePer24h(r, o) == o.acquired => r.upload /\ r.token # "fresh" /\ r.mode # "off"
+(* the token is handed out at most once per 24 h: a fresh token stands for  *)
+(* an acquisition made within the last 24 hours, so with one present nobody *)
+(* acquires it again.  (Whether a starter that does not ask for upload may  *)
+(* take the token is not said by the property; the table says it does not,  *)
+(* and a disagreement there is a divergence, not a violation.)              *)
+TokenOncePer24h(r, o) == o.acquired => r.token # "fresh"
 
 Clauses == {"OnlyIfCalledFor", "UploaderNeedsToken", "NeverRecursive", "OffIsInert", "TokenOncePer24h"}
 Holds(c, r, o) == CASE c = "OnlyIfCalledFor"    -> OnlyIfCalledFor(r, o)
